@@ -930,7 +930,7 @@ func main() {
 		Setup:            func(c *engine.Ctx) { prepare(c.Thorough) },
 		Run:              func(c *engine.Ctx) { run(c) },
 		CaseTimeout:      10 * time.Minute,
-		QuickDeadline:    30 * time.Minute,
+		QuickDeadline:    12 * time.Minute,
 		ThoroughDeadline: 55 * time.Minute,
 		Finish: func(a *engine.Agg) {
 			os.RemoveAll(filepath.Join(engine.Root, ".work", "c09", fmt.Sprintf("run-%d", os.Getpid())))
